@@ -115,6 +115,19 @@ fn long_number(rng: &mut Rng, dimension: bool) -> String {
     s
 }
 
+/// Characters from every corner of Unicode: all kinds of blanks (no-break, em, ideographic, line
+/// and paragraph separators, NEL, BOM, zero width), combining marks, CJK, right-to-left, astral,
+/// private use, the last code points before and after the surrogate gap, U+FFFD, U+10FFFF.
+fn unicode_char(rng: &mut Rng) -> char {
+    const POOL: [u32; 40] = [
+        0x00A0, 0x2003, 0x3000, 0x2028, 0x2029, 0x0085, 0xFEFF, 0x200B, 0x1680, 0x202F, 0x205F, 0x2000,
+        0x0301, 0x20DD, 0x65E5, 0x672C, 0x8A9E, 0x30C6, 0x05D0, 0x0627, 0x1F600, 0x1D518, 0xE000, 0xF8FF,
+        0xD7FF, 0xE001, 0xFFFD, 0xFFFF, 0x10FFFF, 0x10000, 0x00E9, 0x00DF, 0x20AC, 0x0100, 0x07FF, 0x0800,
+        0x7F, 0x80, 0x9F, 0xAD,
+    ];
+    char::from_u32(POOL[rng.below(POOL.len())]).unwrap_or('?')
+}
+
 fn soup_line(rng: &mut Rng, vocab: &[String]) -> String {
     let n = 1 + rng.below(8);
     let mut s = String::new();
@@ -130,8 +143,14 @@ fn soup_line(rng: &mut Rng, vocab: &[String]) -> String {
             DIMENS[rng.below(DIMENS.len())].to_string()
         } else if x < 75 {
             long_number(rng, true)
-        } else {
+        } else if x < 95 {
             MISC[rng.below(MISC.len())].to_string()
+        } else {
+            let mut u = String::new();
+            for _ in 0..(1 + rng.below(3)) {
+                u.push(unicode_char(rng));
+            }
+            u
         };
         s.push_str(&t);
         if rng.chance(2, 3) {
@@ -214,6 +233,22 @@ fn template_line(rng: &mut Rng, vocab: &[String]) -> String {
         }
         30..=34 => boundary_walk(rng),
         35 | 36 => error_storm(rng),
+        38 => {
+            // macro tracing with long and multi-byte arguments and expansions
+            let mut arg = String::new();
+            for _ in 0..rng.below(70) {
+                if rng.chance(1, 3) {
+                    arg.push(unicode_char(rng));
+                } else {
+                    arg.push(['x', 'y', ' ', 'é'][rng.below(4)]);
+                }
+            }
+            format!(
+                "\\tracingmacros={} \\def\\xa#1#2{{[#1|#2#1]}}\\xa{{{arg}}}{{{}}}\\tracingmacros=0 ",
+                [1, 2, -1, 2147483647][rng.below(4)],
+                ["", "z", "\\relax", "{}"][rng.below(4)]
+            )
+        }
         37 => {
             // end-of-input errors right after input came from the terminal or a read stream
             let tail = ["\\def\\xa{", "\\let", "\\count", "\\the", "\\xa", "\\ifnum", "\\global", "\\toks1={", "\\expandafter", "\\read 3 to"][rng.below(10)];
@@ -306,7 +341,11 @@ fn lexer_stress(rng: &mut Rng) -> Vec<String> {
     let nlines = 1 + rng.below(5);
     for k in 0..nlines {
         for _ in 0..rng.below(9) {
-            src.push_str(atoms[rng.below(atoms.len())]);
+            if rng.chance(1, 6) {
+                src.push(unicode_char(rng));
+            } else {
+                src.push_str(atoms[rng.below(atoms.len())]);
+            }
         }
         if k + 1 < nlines || rng.chance(1, 2) {
             src.push_str(nl[rng.below(nl.len())]);
